@@ -116,7 +116,10 @@ const SETS: [&[Item]; 8] = [
 ];
 
 const KEY_SKI: [u8; 20] = [0x11, 0x22, 0x33, 0x44, 0x55, 0x66, 0x77, 0x88, 0x99, 0xAA, 1, 2, 3, 4, 5, 6, 7, 8, 9, 10];
-const KEY_INFO: [u8; 5] = [0x30, 0x03, 0x01, 0x02, 0xFF];
+/// 91 octets of key info (the size of a P-256 SubjectPublicKeyInfo), no two
+/// neighbouring octets equal and none zero, so that octets lost, repeated or
+/// replaced by buffer residue always show.
+fn key_info() -> Vec<u8> { (0..91u32).map(|i| (i * 7 % 251 + 1) as u8).collect() }
 
 /// Model rendering of one payload item, independent of the library's types.
 #[derive(Clone, Debug, PartialEq, Eq, PartialOrd, Ord, Hash)]
@@ -130,10 +133,10 @@ fn item_entry(i: Item) -> Entry {
     match i {
         Item::O4 => Entry::Origin { addr: IpAddr::V4(Ipv4Addr::new(192, 0, 2, 0)), len: 24, max: 26, asn: 64496 },
         Item::O6 => Entry::Origin { addr: IpAddr::V6(Ipv6Addr::new(0x2001, 0xdb8, 0, 0, 0, 0, 0, 0)), len: 32, max: 48, asn: 64497 },
-        Item::K => Entry::Key { ski: KEY_SKI, asn: 64498, info: KEY_INFO.to_vec() },
-        Item::A1a => Entry::Aspa { customer: 64500, providers: vec![64501, 64502] },
-        Item::A1b => Entry::Aspa { customer: 64500, providers: vec![64503] },
-        Item::A2 => Entry::Aspa { customer: 64510, providers: vec![64501] },
+        Item::K => Entry::Key { ski: KEY_SKI, asn: 64498, info: key_info() },
+        Item::A1a => Entry::Aspa { customer: 64500, providers: vec![64501, 64502, 64504, 64505, 64506] },
+        Item::A1b => Entry::Aspa { customer: 64500, providers: vec![64503, 64507, 64508, 64509] },
+        Item::A2 => Entry::Aspa { customer: 64510, providers: vec![64501, 64511, 64512, 64513] },
     }
 }
 
@@ -250,6 +253,31 @@ enum Order {
 }
 
 const ORDERS: [Order; 3] = [Order::Grouped, Order::Reverse, Order::Mixed];
+
+/// The transport between client and server: capacity of the in-memory pipes
+/// per direction (client -> server: both hops; server -> client: the hop
+/// into the client, the proxy drains the server at once). A pipe of
+/// capacity k hands a reader at most k octets at a time, i.e. it is also the
+/// "forwarded in chunks of k" transport. Fixed per root; the client's data
+/// must not depend on it.
+#[derive(Clone, Copy, Debug, PartialEq, Eq, Hash, PartialOrd, Ord)]
+enum Transport { Roomy, S16, S12, S7, S1C1, C7 }
+
+const TRANSPORTS: [Transport; 6] = [Transport::Roomy, Transport::S16, Transport::S12, Transport::S7, Transport::S1C1, Transport::C7];
+
+impl Transport {
+    fn name(self) -> &'static str {
+        match self { Transport::Roomy => "roomy", Transport::S16 => "s16", Transport::S12 => "s12", Transport::S7 => "s7",
+                     Transport::S1C1 => "s1c1", Transport::C7 => "c7" }
+    }
+    /// (client -> server capacity, server -> client capacity)
+    fn caps(self) -> (usize, usize) {
+        const ROOMY: usize = 1 << 16;
+        match self { Transport::Roomy => (ROOMY, ROOMY), Transport::S16 => (ROOMY, 16), Transport::S12 => (ROOMY, 12),
+                     Transport::S7 => (ROOMY, 7), Transport::S1C1 => (1, 1), Transport::C7 => (7, ROOMY) }
+    }
+    fn narrow_s2c(self) -> bool { self.caps().1 < 20 }
+}
 
 impl Order {
     fn name(self) -> &'static str { match self { Order::Grouped => "grouped", Order::Reverse => "reverse", Order::Mixed => "mixed" } }
@@ -490,7 +518,9 @@ impl PayloadTarget for Target {
 // ======================================================================
 
 #[derive(Clone, Debug, PartialEq, Eq)]
-struct Frame { off: u64, ver: u8, typ: u8, sess: u16, body: Vec<u8>, from_proxy: bool }
+struct Frame { off: u64, ver: u8, typ: u8, sess: u16, body: Vec<u8>, from_proxy: bool,
+    /// server -> client only: the PDU has been written to the client's pipe in full
+    delivered: bool }
 
 #[derive(Default)]
 struct Obs {
@@ -506,24 +536,37 @@ struct Obs {
     cut_fired: bool,
 }
 
+/// One end of a two-way link made of two one-way in-memory pipes, so that
+/// the two directions can have different capacities. A pipe of capacity k
+/// delivers at most k octets per read: the narrow transports make every PDU
+/// reach its reader in pieces.
+struct Link { rd: DuplexStream, wr: DuplexStream }
+
+/// `cap_ab` is the capacity of the pipe a -> b, `cap_ba` of b -> a.
+fn link(cap_ab: usize, cap_ba: usize) -> (Link, Link) {
+    let (a_wr, b_rd) = tokio::io::duplex(cap_ab);
+    let (b_wr, a_rd) = tokio::io::duplex(cap_ba);
+    (Link { rd: a_rd, wr: a_wr }, Link { rd: b_rd, wr: b_wr })
+}
+
 /// Server-side socket: the newtype that can implement the library's
 /// `Socket` trait (orphan rule).
-struct Sock { io: DuplexStream, obs: Arc<Mutex<Obs>> }
+struct Sock { io: Link, obs: Arc<Mutex<Obs>> }
 
 impl AsyncRead for Sock {
     fn poll_read(self: Pin<&mut Self>, cx: &mut Context<'_>, buf: &mut ReadBuf<'_>) -> Poll<std::io::Result<()>> {
-        Pin::new(&mut self.get_mut().io).poll_read(cx, buf)
+        Pin::new(&mut self.get_mut().io.rd).poll_read(cx, buf)
     }
 }
 impl AsyncWrite for Sock {
     fn poll_write(self: Pin<&mut Self>, cx: &mut Context<'_>, buf: &[u8]) -> Poll<std::io::Result<usize>> {
-        Pin::new(&mut self.get_mut().io).poll_write(cx, buf)
+        Pin::new(&mut self.get_mut().io.wr).poll_write(cx, buf)
     }
     fn poll_flush(self: Pin<&mut Self>, cx: &mut Context<'_>) -> Poll<std::io::Result<()>> {
-        Pin::new(&mut self.get_mut().io).poll_flush(cx)
+        Pin::new(&mut self.get_mut().io.wr).poll_flush(cx)
     }
     fn poll_shutdown(self: Pin<&mut Self>, cx: &mut Context<'_>) -> Poll<std::io::Result<()>> {
-        Pin::new(&mut self.get_mut().io).poll_shutdown(cx)
+        Pin::new(&mut self.get_mut().io.wr).poll_shutdown(cx)
     }
 }
 impl Socket for Sock {
@@ -534,13 +577,13 @@ impl Socket for Sock {
 
 /// Client-side socket: counts the octets the client has consumed so that the
 /// unread rest of the pipe (pending Serial Notify PDUs) is observable.
-struct CSock { io: DuplexStream, consumed: Arc<AtomicU64> }
+struct CSock { io: Link, consumed: Arc<AtomicU64> }
 
 impl AsyncRead for CSock {
     fn poll_read(self: Pin<&mut Self>, cx: &mut Context<'_>, buf: &mut ReadBuf<'_>) -> Poll<std::io::Result<()>> {
         let me = self.get_mut();
         let before = buf.filled().len();
-        let r = Pin::new(&mut me.io).poll_read(cx, buf);
+        let r = Pin::new(&mut me.io.rd).poll_read(cx, buf);
         if let Poll::Ready(Ok(())) = r {
             me.consumed.fetch_add((buf.filled().len() - before) as u64, Ordering::Relaxed);
         }
@@ -549,13 +592,13 @@ impl AsyncRead for CSock {
 }
 impl AsyncWrite for CSock {
     fn poll_write(self: Pin<&mut Self>, cx: &mut Context<'_>, buf: &[u8]) -> Poll<std::io::Result<usize>> {
-        Pin::new(&mut self.get_mut().io).poll_write(cx, buf)
+        Pin::new(&mut self.get_mut().io.wr).poll_write(cx, buf)
     }
     fn poll_flush(self: Pin<&mut Self>, cx: &mut Context<'_>) -> Poll<std::io::Result<()>> {
-        Pin::new(&mut self.get_mut().io).poll_flush(cx)
+        Pin::new(&mut self.get_mut().io.wr).poll_flush(cx)
     }
     fn poll_shutdown(self: Pin<&mut Self>, cx: &mut Context<'_>) -> Poll<std::io::Result<()>> {
-        Pin::new(&mut self.get_mut().io).poll_shutdown(cx)
+        Pin::new(&mut self.get_mut().io.wr).poll_shutdown(cx)
     }
 }
 
@@ -595,74 +638,93 @@ fn error_pdu(version: u8, code: u16, encapsulated: &[u8], text: &[u8]) -> Vec<u8
 }
 
 fn frame_of(raw: &[u8], off: u64, from_proxy: bool) -> Frame {
-    Frame { off, ver: raw[0], typ: raw[1], sess: u16::from_be_bytes([raw[2], raw[3]]), body: raw[8..].to_vec(), from_proxy }
+    Frame { off, ver: raw[0], typ: raw[1], sess: u16::from_be_bytes([raw[2], raw[3]]), body: raw[8..].to_vec(), from_proxy, delivered: false }
 }
 
-/// The version-limiting proxy: forwards octets both ways, frames and logs
-/// every PDU, and plays a server whose highest version is `limit`.
-async fn proxy(mut c: DuplexStream, mut s: DuplexStream, limit: u8, mode: ProxyMode, obs: Arc<Mutex<Obs>>) {
+type ToClient = tokio::sync::mpsc::UnboundedSender<(usize, Vec<u8>)>;
+
+/// Logs a PDU bound for the client and queues it for the writer task, in one
+/// step, so that log order, stream offsets and delivery order agree.
+fn emit(obs: &Arc<Mutex<Obs>>, tx: &ToClient, raw: Vec<u8>, from_proxy: bool) -> bool {
+    let mut o = obs.lock().unwrap();
+    let off = o.s2c_bytes;
+    o.s2c.push(frame_of(&raw, off, from_proxy));
+    o.s2c_bytes += raw.len() as u64;
+    let idx = o.s2c.len() - 1;
+    tx.send((idx, raw)).is_ok()
+}
+
+/// The version-limiting proxy is three tasks, so that back-pressure in one
+/// narrow pipe never blocks anything else (as with a real full-duplex
+/// transport with buffers on the way). This one is the client -> server half:
+/// it frames and logs every PDU and plays a server whose highest version is
+/// `limit`.
+async fn proxy_c2s(mut c_rd: DuplexStream, mut s_wr: DuplexStream, to_client: ToClient,
+                   limit: u8, mode: ProxyMode, obs: Arc<Mutex<Obs>>) {
     let mut cbuf: Vec<u8> = Vec::new();
-    let mut sbuf: Vec<u8> = Vec::new();
     let mut b1 = [0u8; 2048];
-    let mut b2 = [0u8; 2048];
     let mut negotiated = false;
     'outer: loop {
-        tokio::select! {
-            biased;
-            r = c.read(&mut b1) => {
-                let n = match r { Ok(0) | Err(_) => break 'outer, Ok(n) => n };
-                cbuf.extend_from_slice(&b1[..n]);
-                loop {
-                    let mut frame = match take_frame(&mut cbuf) {
-                        Ok(Some(f)) => f,
-                        Ok(None) => break,
-                        Err(()) => { obs.lock().unwrap().garbage = true; break 'outer }
-                    };
-                    let is_query = frame[1] == 1 || frame[1] == 2;
-                    obs.lock().unwrap().c2s.push(frame_of(&frame, 0, false));
-                    if is_query && frame[0] > limit && mode == ProxyMode::AnswerLower {
-                        frame[0] = limit;
-                    }
-                    if is_query && !negotiated && frame[0] > limit {
-                        let e = error_pdu(limit, 4, &frame, b"unsupported protocol version");
-                        {
-                            let mut o = obs.lock().unwrap();
-                            let off = o.s2c_bytes;
-                            o.s2c.push(frame_of(&e, off, true));
-                            o.s2c_bytes += e.len() as u64;
-                        }
-                        if c.write_all(&e).await.is_err() { break 'outer }
-                    } else {
-                        if is_query { negotiated = true }
-                        if s.write_all(&frame).await.is_err() { break 'outer }
-                    }
-                }
+        let n = match c_rd.read(&mut b1).await { Ok(0) | Err(_) => break 'outer, Ok(n) => n };
+        cbuf.extend_from_slice(&b1[..n]);
+        loop {
+            let mut frame = match take_frame(&mut cbuf) {
+                Ok(Some(f)) => f,
+                Ok(None) => break,
+                Err(()) => { obs.lock().unwrap().garbage = true; break 'outer }
+            };
+            let is_query = frame[1] == 1 || frame[1] == 2;
+            obs.lock().unwrap().c2s.push(frame_of(&frame, 0, false));
+            if is_query && frame[0] > limit && mode == ProxyMode::AnswerLower {
+                frame[0] = limit;
             }
-            r = s.read(&mut b2) => {
-                let n = match r { Ok(0) | Err(_) => break 'outer, Ok(n) => n };
-                sbuf.extend_from_slice(&b2[..n]);
-                loop {
-                    match take_frame(&mut sbuf) {
-                        Ok(Some(f)) => {
-                            let fire = {
-                                let mut o = obs.lock().unwrap();
-                                let off = o.s2c_bytes;
-                                o.s2c.push(frame_of(&f, off, false));
-                                o.s2c_bytes += f.len() as u64;
-                                match o.cut_after {
-                                    Some(k) if f[1] == 3 || o.cut_count > 0 => { o.cut_count += 1; o.cut_count >= k }
-                                    _ => false,
-                                }
-                            };
-                            if c.write_all(&f).await.is_err() { break 'outer }
-                            if fire { obs.lock().unwrap().cut_fired = true; break 'outer }
-                        }
-                        Ok(None) => break,
-                        Err(()) => { obs.lock().unwrap().garbage = true; break 'outer }
-                    }
-                }
+            if is_query && !negotiated && frame[0] > limit {
+                let e = error_pdu(limit, 4, &frame, b"unsupported protocol version");
+                if !emit(&obs, &to_client, e, true) { break 'outer }
+            } else {
+                if is_query { negotiated = true }
+                if s_wr.write_all(&frame).await.is_err() { break 'outer }
             }
         }
+    }
+}
+
+/// Server -> proxy: drains the server at once (the server never waits for a
+/// slow client), frames and logs every PDU the moment the server has sent it
+/// — so "sent but not yet read by the client" is always exactly known — and
+/// hands it to the writer.
+async fn proxy_from_server(mut s_rd: DuplexStream, to_client: ToClient, obs: Arc<Mutex<Obs>>) {
+    let mut sbuf: Vec<u8> = Vec::new();
+    let mut b2 = [0u8; 2048];
+    'outer: loop {
+        let n = match s_rd.read(&mut b2).await { Ok(0) | Err(_) => break 'outer, Ok(n) => n };
+        sbuf.extend_from_slice(&b2[..n]);
+        loop {
+            match take_frame(&mut sbuf) {
+                Ok(Some(f)) => if !emit(&obs, &to_client, f, false) { break 'outer },
+                Ok(None) => break,
+                Err(()) => { obs.lock().unwrap().garbage = true; break 'outer }
+            }
+        }
+    }
+}
+
+/// Proxy -> client: writes PDU by PDU into the (possibly narrow) pipe to the
+/// client, marks each PDU delivered, and carries out the connection cut of
+/// the `C<k>` events.
+async fn proxy_to_client(mut c_wr: DuplexStream, mut rx: tokio::sync::mpsc::UnboundedReceiver<(usize, Vec<u8>)>,
+                         obs: Arc<Mutex<Obs>>) {
+    while let Some((idx, f)) = rx.recv().await {
+        if c_wr.write_all(&f).await.is_err() { break }
+        let fire = {
+            let mut o = obs.lock().unwrap();
+            o.s2c[idx].delivered = true;
+            match o.cut_after {
+                Some(k) if (f[1] == 3 && !o.s2c[idx].from_proxy) || o.cut_count > 0 => { o.cut_count += 1; o.cut_count >= k }
+                _ => false,
+            }
+        };
+        if fire { obs.lock().unwrap().cut_fired = true; break }
     }
 }
 
@@ -692,16 +754,16 @@ const ROOT_SETS: [u8; 3] = [6, 1, 7];
 const ROOT_SERIAL0: u32 = 100;
 
 #[derive(Clone, Copy, Debug, PartialEq, Eq, Hash, PartialOrd, Ord)]
-struct Cfg { civ: u8, limit: u8, mode: ProxyMode, style: Style, cap: u8, order: Order, init: Init }
+struct Cfg { civ: u8, limit: u8, mode: ProxyMode, style: Style, cap: u8, order: Order, link: Transport, init: Init }
 
 impl Cfg {
     fn render(&self) -> String {
-        format!("civ={} limit={} proxy={} style={} cap={} order={} init={}", self.civ, self.limit,
+        format!("civ={} limit={} proxy={} style={} cap={} order={} link={} init={}", self.civ, self.limit,
             match self.mode { ProxyMode::ErrorReply => "error", ProxyMode::AnswerLower => "lower" },
-            match self.style { Style::Net => "net", Style::Chained => "chained" }, self.cap, self.order.name(), self.init.name())
+            match self.style { Style::Net => "net", Style::Chained => "chained" }, self.cap, self.order.name(), self.link.name(), self.init.name())
     }
     fn parse(s: &str) -> Option<(Cfg, Vec<Ev>)> {
-        let mut civ = None; let mut limit = None; let mut cap = Some(2u8); let mut order = Some(Order::Grouped); let mut mode = None; let mut style = None; let mut init = None; let mut hist = None;
+        let mut civ = None; let mut limit = None; let mut cap = Some(2u8); let mut order = Some(Order::Grouped); let mut link = Some(Transport::Roomy); let mut mode = None; let mut style = None; let mut init = None; let mut hist = None;
         for tok in s.split_whitespace() {
             let (k, v) = tok.split_once('=')?;
             match k {
@@ -709,6 +771,7 @@ impl Cfg {
                 "limit" => limit = v.parse().ok(),
                 "cap" => cap = v.parse().ok(),
                 "order" => order = ORDERS.iter().copied().find(|o| o.name() == v),
+                "link" => link = TRANSPORTS.iter().copied().find(|o| o.name() == v),
                 "proxy" => mode = match v { "error" => Some(ProxyMode::ErrorReply), "lower" => Some(ProxyMode::AnswerLower), _ => None },
                 "style" => style = match v { "net" => Some(Style::Net), "chained" => Some(Style::Chained), _ => None },
                 "init" => init = INITS.iter().copied().find(|i| i.name() == v),
@@ -720,7 +783,7 @@ impl Cfg {
                 _ => return None,
             }
         }
-        Some((Cfg { civ: civ?, limit: limit?, mode: mode?, style: style?, cap: cap?, order: order?, init: init? }, hist?))
+        Some((Cfg { civ: civ?, limit: limit?, mode: mode?, style: style?, cap: cap?, order: order?, link: link?, init: init? }, hist?))
     }
 }
 
@@ -853,7 +916,7 @@ enum ConnK {
 /// that can influence a later exchange is in the key:
 ///
 /// * `cfg` — initial client version, proxy limit and mode, diff style,
-///   retained-chain cap and iteration order of the source (fixed
+///   retained-chain cap, iteration order of the source and transport (fixed
 ///   per run; the initial client state is NOT part of it: it only selects the
 ///   root, what it leaves behind is captured by `pos` and `data`).
 /// * source side: the real server connection keeps nothing between queries
@@ -882,7 +945,7 @@ enum ConnK {
 /// key is taken, so no half-read stream can hide behind a key.
 #[derive(Clone, Debug, PartialEq, Eq, Hash)]
 struct Key {
-    cfg: (u8, u8, ProxyMode, Style, u8, Order),
+    cfg: (u8, u8, ProxyMode, Style, u8, Order, Transport),
     cur: u8,
     epoch: u8,
     pos: Pos,
@@ -971,9 +1034,15 @@ struct Conn {
 async fn connect(cfg: &Cfg, src: &Source, notify: &NotifySender, target: Target, state: Option<State>) -> Conn {
     let obs = Arc::new(Mutex::new(Obs::default()));
     let consumed = Arc::new(AtomicU64::new(0));
-    let (c_end, pc_end) = tokio::io::duplex(1 << 16);
-    let (ps_end, s_end) = tokio::io::duplex(1 << 16);
-    tokio::spawn(proxy(pc_end, ps_end, cfg.limit, cfg.mode, obs.clone()));
+    let (c2s, s2c) = cfg.link.caps();
+    // The narrow server->client pipe is the last hop only: the proxy takes
+    // everything the server sends at once (see `proxy_from_server`).
+    let (c_end, pc_end) = link(c2s, s2c);       // client <-> proxy
+    let (ps_end, s_end) = link(c2s, 1 << 16);   // proxy <-> server
+    let (tx, rx) = tokio::sync::mpsc::unbounded_channel();
+    tokio::spawn(proxy_c2s(pc_end.rd, ps_end.wr, tx.clone(), cfg.limit, cfg.mode, obs.clone()));
+    tokio::spawn(proxy_from_server(ps_end.rd, tx, obs.clone()));
+    tokio::spawn(proxy_to_client(pc_end.wr, rx, obs.clone()));
     let listener = futures_util::stream::iter(vec![Ok::<Sock, std::io::Error>(Sock { io: s_end, obs: obs.clone() })]);
     tokio::spawn(Server::new(listener, notify.clone(), src.clone()).run());
     let client = Client::with_initial_version(cfg.civ, CSock { io: c_end, consumed: consumed.clone() }, target, state);
@@ -1055,7 +1124,7 @@ fn compute_key(cfg: &Cfg, src: &Source, conn: &Conn) -> (Key, Abs, Vec<String>) 
         ConnK::Established { query_version: q, answer_version: a, timing: conn.client.target().reported_timing }
     };
     let key = Key {
-        cfg: (cfg.civ, cfg.limit, cfg.mode, cfg.style, cfg.cap, cfg.order), cur: s.cur, epoch: s.epoch, pos,
+        cfg: (cfg.civ, cfg.limit, cfg.mode, cfg.style, cfg.cap, cfg.order, cfg.link), cur: s.cur, epoch: s.epoch, pos,
         data: conn.client.target().data.clone(), conn: connk, pending: pending.clone(),
     };
     let abs = Abs { cur: s.cur, chain_len: s.chain.len(), epoch: s.epoch, pending: pending.len() };
@@ -1120,7 +1189,7 @@ async fn exec_async(cfg: Cfg, hist: Vec<Ev>) -> Exec {
                     }
                     for f in &o.c2s[m_c2s..] { t.push(format!(">{}v{}", type_name(f.typ), f.ver)); }
                     for f in &o.s2c[m_s2c..] {
-                        t.push(format!("<{}{}v{}{}", if f.from_proxy { "proxy:" } else { "" }, type_name(f.typ), f.ver,
+                        t.push(format!("<{}{}{}v{}{}", if f.delivered { "" } else { "(undelivered)" }, if f.from_proxy { "proxy:" } else { "" }, type_name(f.typ), f.ver,
                             if f.typ == 10 { format!("(code {})", f.sess) }
                             else if matches!(f.typ, 4 | 6) { format!("({})", if f.body[0] & 1 == 1 { "A" } else { "W" }) }
                             else if matches!(f.typ, 9 | 11) { format!("({})", if (f.sess >> 8) & 1 == 1 { "A" } else { "W" }) }
@@ -1136,7 +1205,7 @@ async fn exec_async(cfg: Cfg, hist: Vec<Ev>) -> Exec {
                         else if q.contains(&1) { "serial-query:diff" }
                         else if q.contains(&2) { "reset-query" }
                         else { "no-query" };
-                    let eod = o.s2c[m_s2c..].iter().find(|f| f.typ == 7).and_then(parse_eod);
+                    let eod = o.s2c[m_s2c..].iter().find(|f| f.typ == 7 && f.delivered).and_then(parse_eod);
                     (t.join(" "), class.to_string(), eod, downgraded)
                 };
                 let transcript = match mid_fired { Some((k, call)) => format!("{transcript} [source moved at call {k}: {call}()]"), None => transcript };
@@ -1297,6 +1366,7 @@ struct Stats {
     downgrade_ok_by_pair: BTreeMap<String, u64>,
     negotiated: BTreeMap<String, u64>,
     ok_by_order: BTreeMap<String, u64>,
+    ok_by_link: BTreeMap<String, u64>,
     violating_transitions: u64,
     max_sim_ms: u64,
     odd_withdraws: u64,
@@ -1364,6 +1434,24 @@ fn main() {
     for civ in 0..=2u8 { for limit in 0..=2u8 { vconfigs.push((civ, limit, ProxyMode::ErrorReply)) } }
     if thorough { for civ in 0..=2u8 { for limit in 0..civ { vconfigs.push((civ, limit, ProxyMode::AnswerLower)) } } }
     let mut roots: Vec<Cfg> = Vec::new();
+    // The transport rotates over the (version configuration, order) groups,
+    // one rotation per negotiated version, so that every version meets
+    // several transports and versions 1 and 2 (router key and ASPA PDUs, the
+    // ones with a variable part) start with the narrow server->client pipes.
+    // A full product would multiply the space by six.
+    // The 1-octet pipes cost about three times as much per execution as the
+    // others and are left to the thorough tier.
+    use Transport::*;
+    let rot: [Vec<Transport>; 3] = if thorough { [
+        vec![Roomy, C7, S16, S1C1, S7, S12],
+        vec![S16, S1C1, S7, S12, Roomy, C7],
+        vec![S12, S16, S1C1, S7, Roomy, C7],
+    ] } else { [
+        vec![Roomy, C7, S16, S7, S12],
+        vec![S16, S7, S12],
+        vec![S12, S16, S7],
+    ] };
+    let mut rot_at = [0usize; 3];
     for &(style, cap, ord) in &styles { for &(civ, limit, mode) in &vconfigs {
         // the answer-lower proxy is explored with 2 retained diffs (both styles); the
         // 3-diff space, the largest, keeps to the error-reply proxy
@@ -1372,18 +1460,22 @@ fn main() {
             Some(off) if civ.min(limit) < 2 => vec![ORDERS[((civ + 2 * limit + off) % 3) as usize]],
             _ => ORDERS.to_vec(),
         };
-        for order in orders { for &init in &INITS {
-            roots.push(Cfg { civ, limit, mode, style, cap, order, init });
-        }}
+        for order in orders {
+            let v = civ.min(limit) as usize;
+            let link = std::env::var("C06_LINK").ok().and_then(|n| TRANSPORTS.iter().copied().find(|t| t.name() == n))
+                .unwrap_or(rot[v][rot_at[v] % rot[v].len()]);   // C06_LINK: measuring aid, forces one transport everywhere
+            rot_at[v] += 1;
+            for &init in &INITS { roots.push(Cfg { civ, limit, mode, style, cap, order, link, init }); }
+        }
     }}
 
     let sp = ctx.space("rtr.histories",
-        "breadth-first over event histories {update(S) [thorough: + update_nodiff(S)] for the 7 other sets of an 8-set family, drop_diffs, restart, wrap, notify, client_step, client_step with the connection dying after 1/2/3 response PDUs, client_step with the source moving to another set (quick: 2 target sets, thorough: 3) on entry to the k-th source call of the exchange, k = 1..5} from every root (7 initial client states x client initial version 0..2 x proxy limit 0..2 [thorough: + answer-lower proxy where civ > limit] x diff style [thorough: chained with 2 and 3 retained diffs, net with 2; quick: chained with 2] x iteration order of the source's sets and diff steps {grouped by type, reverse, mixed so that an unsupported-type item precedes supported ones; withdraw-first / announce-first inside a diff step} [one order per version configuration chosen so that every negotiated version meets all three; thorough: full product for chained/2]), states de-duplicated by canonical key, every transition re-executed on the real Client and Server; oracles judge against the state named in End of Data, never against the source's latest state; timing is judged only when the source was asked for its timing while in that very state (the library reads timing in a separate call, so an update landing between data and timing leaves the clause undefined); non-trivial = transitions whose client step completed (Ok) AND changed the client's state or data (each (state, event) pair is executed once, so they are distinct by construction)");
+        "breadth-first over event histories {update(S) [thorough: + update_nodiff(S)] for the 7 other sets of an 8-set family, drop_diffs, restart, wrap, notify, client_step, client_step with the connection dying after 1/2/3 response PDUs, client_step with the source moving to another set (quick: 2 target sets, thorough: 3) on entry to the k-th source call of the exchange, k = 1..5} from every root (7 initial client states x client initial version 0..2 x proxy limit 0..2 [thorough: + answer-lower proxy where civ > limit] x diff style [thorough: chained with 2 and 3 retained diffs, net with 2; quick: chained with 2] x iteration order of the source's sets and diff steps {grouped by type, reverse, mixed so that an unsupported-type item precedes supported ones; withdraw-first / announce-first inside a diff step} [one order per version configuration chosen so that every negotiated version meets all three; thorough: full product for chained/2] x transport {roomy pipes; server->client pipe of 16, 12, 7 octets; 1-octet pipes both ways; client->server pipe of 7 octets — a pipe of k octets delivers at most k octets per read, so router-key info (91 octets) and ASPA provider lists (4-5 providers) reach the client in pieces} [rotated over the (version configuration, order) groups, one rotation per negotiated version]), states de-duplicated by canonical key, every transition re-executed on the real Client and Server; oracles judge against the state named in End of Data, never against the source's latest state; timing is judged only when the source was asked for its timing while in that very state (the library reads timing in a separate call, so an update landing between data and timing leaves the clause undefined); non-trivial = transitions whose client step completed (Ok) AND changed the client's state or data (each (state, event) pair is executed once, so they are distinct by construction)");
 
     let start = WallInstant::now();
     let mut st = Stats { transitions: 0, executions: 0, nontrivial: 0, outcomes: BTreeMap::new(),
         transcripts: BTreeSet::new(), ok_by_pair: BTreeMap::new(), downgrade_ok_by_pair: BTreeMap::new(),
-        negotiated: BTreeMap::new(), ok_by_order: BTreeMap::new(), violating_transitions: 0, max_sim_ms: 0, odd_withdraws: 0, odd_announces: 0 };
+        negotiated: BTreeMap::new(), ok_by_order: BTreeMap::new(), ok_by_link: BTreeMap::new(), violating_transitions: 0, max_sim_ms: 0, odd_withdraws: 0, odd_announces: 0 };
     let mut seen: Seen = Seen::default();
     let mut frontier: Vec<Node> = Vec::new();
 
@@ -1463,6 +1555,7 @@ fn main() {
                     if let Some(v) = s.negotiated {
                         bump(&mut st.negotiated, &format!("v{v}"));
                         bump(&mut st.ok_by_order, &format!("{}/v{v}", n.cfg.order.name()));
+                        bump(&mut st.ok_by_link, &format!("{}/v{v}", n.cfg.link.name()));
                     }
                     if s.changed {
                         st.nontrivial += 1;
@@ -1514,7 +1607,7 @@ fn main() {
     let total_ok: u64 = st.ok_by_pair.values().sum();
     if total_ok == 0 { ctx.machinery_error("vacuous: no client step succeeded anywhere") }
     for &(civ, limit, mode) in &vconfigs {
-        let c = Cfg { civ, limit, mode, style: styles[0].0, cap: styles[0].1, order: Order::Grouped, init: Init::NoState };
+        let c = Cfg { civ, limit, mode, style: styles[0].0, cap: styles[0].1, order: Order::Grouped, link: Transport::Roomy, init: Init::NoState };
         let p = pair_name(&c);
         if st.ok_by_pair.get(&p).copied().unwrap_or(0) == 0 {
             ctx.machinery_error(format!("vacuous: no client step succeeded for {p}"));
@@ -1522,6 +1615,12 @@ fn main() {
         if civ > limit && st.downgrade_ok_by_pair.get(&p).copied().unwrap_or(0) == 0 {
             ctx.machinery_error(format!("vacuous: no completed exchange with a version downgrade for {p}"));
         }
+    }
+
+    for v in [1u8, 2] {
+        let narrow: u64 = TRANSPORTS.iter().filter(|t| t.narrow_s2c())
+            .map(|t| st.ok_by_link.get(&format!("{}/v{v}", t.name())).copied().unwrap_or(0)).sum();
+        if narrow == 0 { ctx.machinery_error(format!("vacuous: no completed version-{v} exchange over a narrow server->client pipe")) }
     }
 
     // ---- evidence ----
@@ -1544,6 +1643,8 @@ fn main() {
     sp.set("iteration_orders", json!({"grouped": "O4 O6 K A1 A2; diff steps in item order", "reverse": "A2 A1 K O6 O4; withdrawals of a step first",
         "mixed": "K O4 A1 O6 A2; announcements of a step first"}));
     sp.set("ok_steps_by_iteration_order_and_version", json!(st.ok_by_order));
+    sp.set("transports(client->server capacity, server->client capacity)", json!(TRANSPORTS.iter().map(|t| format!("{}: {:?}", t.name(), t.caps())).collect::<Vec<_>>()));
+    sp.set("ok_steps_by_transport_and_version", json!(st.ok_by_link));
     sp.set("events", json!(["U<S> update (diff retained)", "X<S> update (diff history dropped)", "D drop diffs", "R restart (new session)", "W serial := 2^32-1", "N notify", "S client step", "C<k> client step, connection dies after k PDUs of the response", "M<k>:<S> client step, source moves to set S on entry to the k-th call the server makes on it (ready/notify/full/diff/timing)"]));
     sp.set("bounds", json!({"pending_notifies": MAX_PENDING_NOTIFY, "connection_cut_after_pdus": CUTS, "mid_step_update_at_source_call": MID_CALLS, "simulated_horizon_s": HORIZON.as_secs()}));
     sp.set("distinct_outcomes(step transcripts)", json!(st.transcripts.len()));
